@@ -190,6 +190,10 @@ func ParseRtmpUrl(rawUrl string) (ctx UrlContext, err error) {
 	//
 	if strings.Count(ctx.PathWithRawQuery, "?") > 1 {
 		index := strings.LastIndexByte(ctx.PathWithRawQuery, '/')
+		if index < 1 {
+			// 只有一级路径，没有app和stream之分，比如 rtmp://host/a?b?c
+			return ctx, fmt.Errorf("%w. url=%s", ErrInvalidUrl, rawUrl)
+		}
 		ctx.Path = ctx.PathWithRawQuery
 		ctx.PathWithoutLastItem = ctx.PathWithRawQuery[1:index]
 		ctx.LastItemOfPath = ctx.PathWithRawQuery[index+1:]
